@@ -16,4 +16,11 @@ structure IterSt where
 /-- `Message::iter_attributes`: the initial iterator state -/
 def IterSt.init : IterSt := ⟨20, false, false⟩
 
+/-- `Fingerprint::from_raw(&attr)` followed by `.fingerprint()`: the stored (un-XORed) CRC bytes -/
+def fpFromRaw (a : RawAttr) : Except PErr Bytes :=
+  match fromRaw .fingerprint a with
+  | .error e => .error e
+  | .ok (.fingerprint crc) => .ok crc
+  | .ok _ => .error (.fault .unreachable)
+
 end StunVerif
